@@ -293,6 +293,19 @@ pub fn enforce(p: Prof, s: &str) -> Out {
     with_profile!(p, x, conv(guard(|| x.enforce(s))))
 }
 
+/// `enforce` through the instance API, handing out the very `String` the library returned when
+/// the result is owned (None: borrowed result, error or panic) - for histories in which the
+/// caller refills the returned buffer and passes it back in.
+pub fn enforce_owned(p: Prof, s: &str) -> Option<String> {
+    with_profile!(p, x, match guard(|| x.enforce(s).ok().and_then(|c| match c {
+        Cow::Owned(o) => Some(o),
+        Cow::Borrowed(_) => None,
+    })) {
+        Ok(v) => v,
+        Err(_) => None,
+    })
+}
+
 pub fn op(p: Prof, o: Op, s: &str) -> Out {
     match o {
         Op::Prepare => prepare(p, s),
